@@ -213,10 +213,68 @@ class MaybeRepairForce(Spec):
                 ("check-and-repair-never-forces", z3.BoolVal(all(f is False for f in calls)))]
 
 
+class RequestedVersion(Spec):
+    """MutableFileNode._get_version_from_servermap: a caller that names a version (the repairer naming the best version
+    of its full survey) gets exactly that version or UnrecoverableFileError -- never silently another version's contents"""
+    file = "allmydata/mutable/filenode.py"
+    qualname = "MutableFileNode._get_version_from_servermap"
+    cross_check = 0
+    raises = ()
+    canary_case = {"requested": None, "have": "both", "fresh": False}
+
+    def inputs(self):
+        return {"requested": ChoiceK([None, "v-old", "v-new", "v-gone"]), "have": ChoiceK(["both", "old-only", "none"]), "fresh": ChoiceK([False, True])}
+
+    def all_cases(self):
+        return [{"requested": r, "have": h, "fresh": f} for r in (None, "v-old", "v-new", "v-gone") for h in ("both", "old-only", "none") for f in (False, True)]
+
+    def config(self):
+        return {"overrides": {"log.msg": lambda I, a, kw: 1}}
+
+    def run(self, I, a):
+        from pyvc.models_tahoe import DStub
+        rec = {"both": {"v-old", "v-new"}, "old-only": {"v-old"}, "none": set()}[a["have"]]
+        best = "v-new" if "v-new" in rec else ("v-old" if rec else None)
+        smap = stub("servermap", recoverable_versions=lambda I_, a_, k_: set(rec), best_recoverable_version=lambda I_, a_, k_: best,
+                    get_last_update=lambda I_, a_, k_: ("MODE_READ", 0))
+        self._surveys = []
+
+        def get_servermap(I_, a_, k_):
+            d = DStub("pending")
+            self._surveys.append(d)
+            return d
+        node = SObj(self.module().MutableFileNode, {})
+        node.fields["_get_servermap"] = stub("x", f=get_servermap).fields["f"]
+        d = I.call_value(self.target(I), [node, "MODE_READ", (None if a["fresh"] else smap), a["requested"]], {})
+        if self._surveys:
+            fire_chain(I, self._surveys[0], smap)
+            d = self._surveys[0]
+        elif getattr(d, "state", None) in ("succeeded",) and d.callbacks and not getattr(d, "_fired", False):
+            fire_chain(I, d, d.value)
+        out = Outcome("return", d)
+        out.post = {"smap": smap, "rec": rec, "best": best}
+        return out
+
+    def ensures(self, I, a, out):
+        from allmydata.mutable.common import UnrecoverableFileError
+        d, rec, best, req = out.value, out.post["rec"], out.post["best"], a["requested"]
+        if req is not None:
+            want = req if req in rec else None
+        else:
+            want = best
+        failed = d.state == "failed" and is_failure(d.value) and d.value.exc_cls is UnrecoverableFileError
+        ok = d.state == "succeeded" and isinstance(d.value, tuple) and d.value[0] is out.post["smap"] and d.value[1] == want
+        return [("a-named-version-is-answered-with-that-version-or-an-unrecoverable-error-never-another-one", z3.BoolVal(failed if want is None else ok)),
+                ("a-survey-is-made-exactly-when-none-of-the-right-mode-was-supplied", z3.BoolVal(len(self._surveys) == (1 if a["fresh"] else 0)))]
+
+    def canary(self, I, a, out):
+        return [("canary", z3.BoolVal(out.value.state == "failed"))]
+
+
 def extra_checks(rep, tier):
     from contracts import grid_mutable
     grid_mutable.grid_check(rep, tier, "C14")
 
 
 def contracts(tier):
-    return [MakeCheckerResults(), RepairDecision(), MaybeRepairForce()]
+    return [MakeCheckerResults(), RepairDecision(), MaybeRepairForce(), RequestedVersion()]
